@@ -144,7 +144,7 @@ func newPKI() *pki {
 	os.WriteFile(filepath.Join(dir, "server.key"), p.server.keyPEM(), 0o600)
 	os.WriteFile(filepath.Join(dir, "ca.crt"), p.ca.certPEM(), 0o600)
 	// the foreign CA is one the HOST trusts (as any public CA would be): it is the only entry of the process's system trust
-	// store.  A server that must admit clients of the configured CA only may not fall back on that store.
+	// store.  A server that must let in clients of the configured CA only may not fall back on that store.
 	os.WriteFile(filepath.Join(dir, "hosttrust.pem"), p.foreignCA.certPEM(), 0o600)
 	os.Mkdir(filepath.Join(dir, "hosttrust.d"), 0o700)
 	os.Setenv("SSL_CERT_FILE", filepath.Join(dir, "hosttrust.pem"))
@@ -666,7 +666,7 @@ func modeTLSGate(args []string) {
 			emit(r)
 		}
 		// the operator replaces the CA client certificates must chain to, and restarts: from then on the retired CA's
-		// clients are strangers and the new CA's clients are admitted
+		// clients are strangers and the new CA's clients are let in
 		ca2 := filepath.Join(p.dir, "ca-rotated.crt")
 		os.WriteFile(ca2, p.foreignCA.certPEM(), 0o600)
 		if err := s.srv.SetTLSCaCertFile(ca2); err != nil {
